@@ -45,6 +45,8 @@ pub enum Error {
     PieceHashMismatch,
     /// Peer doesn't send any message, keep-alive trigger.
     KeepAliveTimeout,
+    /// Peer doesn't read what is sent to him, message couldn't be written in time.
+    WriteTimeout,
     /// Missing info field to calculate hash.
     InfoMissing,
     /// Socket not available.
@@ -121,6 +123,7 @@ impl fmt::Display for Error {
             Error::PieceBuffMissing => write!(f, "Piece buff missing"),
             Error::PieceHashMismatch => write!(f, "Piece hash mismatch"),
             Error::KeepAliveTimeout => write!(f, "Keep alive timeout"),
+            Error::WriteTimeout => write!(f, "Write timeout"),
             Error::SocketNotAvailable => write!(f, "Socket not available"),
             Error::CantReadFromSocket => write!(f, "Can't read from socket"),
             Error::InfoMissing => write!(f, "Info field missing"),
